@@ -689,3 +689,32 @@ pub fn gen_mreq(r: &mut Rng) -> String {
     };
     format!("mreq {} {} {}", st.join(","), flags, idx)
 }
+
+
+/// C11 (manager side): `minit <statuses>` → payload of the bitfield the manager answers `Init` with.
+pub fn op_minit(statuses: &str) -> String {
+    let st = parse_statuses(statuses);
+    let r = catch(|| {
+        rt().block_on(async {
+            let mut s = Session::new(metainfo(st.len(), 16384, 16384), own_id());
+            s.verif_add_peer(addr_of(0), None);
+            *s.verif_statuses() = st.clone();
+            let (tx, rx) = tokio::sync::oneshot::channel();
+            let _ = s.verif_handle_peer_cmd(PeerCmd::Init { addr: addr_of(0), peer_id: [65u8; 20], resp_ch: tx }).await;
+            match rx.await {
+                Ok(InitCmd::SendBitfield { bitfield }) => {
+                    let data = bitfield.data();
+                    hex(&data[5..])
+                }
+                Err(_) => "noreply".to_string(),
+            }
+        })
+    });
+    r.unwrap_or_else(|_| "P".into())
+}
+
+pub fn gen_minit(r: &mut Rng) -> String {
+    let n = *r.pick(&[1usize, 7, 8, 9, 16, 17, 3, 24]) + r.below(2) as usize;
+    let st: Vec<&str> = (0..n).map(|_| *r.pick(&["m", "h", "h", "r1", "r2", "m"])).collect();
+    format!("minit {}", st.join(","))
+}
